@@ -8,7 +8,7 @@ CONSTANTS
   SchI = {1, 2}
   UsrI = {1, 2, 3}
   PwI = {1, 2}
-  HostI = {1, 2}
+  HostI = {1, 2, 4}
   PortI = {1, 2}
   PNameI = {1, 2, 6, 7}
   PValI = {1, 2}
